@@ -471,3 +471,400 @@ Proof.
   exists c. split; [eapply run_reach; [apply reach_init|exact E]|].
   vm_compute in E. injection E as <- _. vm_compute. repeat split.
 Qed.
+
+
+(* ========================================================================================== *)
+(* Cross-model links (appended; owner: the links, docs/Link.md section L1)                      *)
+(* ========================================================================================== *)
+(* Conn_Model keeps outb / inb as plain byte lists ("readable bytes of outputBuffer_ /
+   inputBuffer_; abstract view justified by C10").  Link_ConnBuf_Model is the same connection
+   over two CONCRETE Buffers (the C10 model: vector, readerIndex_, writerIndex_): state
+   (ctl, obuf, ibuf), ctl = the control fields (a conn whose two list fields are dead),
+   c_step = Conn_Model.step on ctl except that every Buffer call TcpConnection.cc makes is the
+   C10_Model function (definitions quoted below); a Buffer call of TcpConnection itself that C10
+   rejects or faults makes the concrete step Fault.  Proofs: Link_ConnBuf.v; the link's own
+   headline file is Link_Properties_L1.v.  B = C10_Model, BP = C10_Proofs. *)
+From Muduo Require Import Link_ConnBuf_Model Link_ConnBuf Link_Properties_L1.
+
+(* the concrete machine, as equations *)
+Theorem C01_link_c_init_def : forall mark wc hw,
+  c_init mark wc hw = mkCC (init mark wc hw) (B.new_buf B.kInitialSize) (B.new_buf B.kInitialSize).
+Proof. exact c_init_unfold. Qed.
+Print Assumptions C01_link_c_init_def.
+
+Theorem C01_link_c_step_def : forall c o,
+  c_step c o =
+  let a := ctl c in
+  match o with
+  | CRead k =>
+      if rd_chan a && registered a then c_handleRead c k else Rejected
+  | CRetrieveAll =>
+      if cstate_eqb (st a) Connecting then Rejected else
+      Ok (mkCC (mkConn (st a) [] [] (writing a) (rd_chan a) (rd_flag a) (registered a) (hwm a)
+                       (has_wc a) (has_hwm a) (wire a) (fin a) (pending a) (chk a) (delayed a) (accepted a)
+                       (consumed a ++ B.readable (ibuf c))                   (* ghost *)
+                       (delivered a) (enq a) (ran a) (ups a) (downs a))
+               (obuf c) (B.retrieveAll (ibuf c)), [])
+  | COp o =>
+      if user_op o && cstate_eqb (st a) Connecting then Rejected else
+      match o with
+      | Send d k =>                                                          (* TcpConnection.cc:92-99 *)
+          if cstate_eqb (st a) Connected then c_sendInLoop c d k else Ok (c, [])
+      | RunOne k =>
+          match pending a with
+          | FSend t d :: rest =>                                             (* the bound sendInLoop, :102-106 *)
+              match c_sendInLoop (mkCC (set_pending a rest) (obuf c) (ibuf c)) d k with
+              | Ok (c1, evs) => Ok (mkCC (c_add_ran (ctl c1) t d) (obuf c1) (ibuf c1), evs)
+              | Rejected => Rejected
+              | Fault => Fault
+              end
+          | _ => lift c (step a (RunOne k))
+          end
+      | EvWritable k => if registered a then c_handleWrite c k else Rejected
+      | EvReadData _ | EvReadEOF | EvReadErr => Rejected                     (* use CRead *)
+      | Retrieve n =>
+          match B.retrieve n (ibuf c) with                                   (* Buffer.h:113-124 *)
+          | B.Ok ib' =>
+              Ok (mkCC (mkConn (st a) [] [] (writing a) (rd_chan a) (rd_flag a) (registered a) (hwm a)
+                               (has_wc a) (has_hwm a) (wire a) (fin a) (pending a) (chk a) (delayed a) (accepted a)
+                               (consumed a ++ firstn n (B.readable (ibuf c)))   (* ghost *)
+                               (delivered a) (enq a) (ran a) (ups a) (downs a))
+                       (obuf c) ib', [])
+          | B.Rejected => Rejected                                           (* assert(len <= readableBytes()) *)
+          | B.Fault => Fault
+          end
+      | _ => lift c (step a o)
+      end
+  end.
+Proof. exact c_step_unfold. Qed.
+Print Assumptions C01_link_c_step_def.
+
+Theorem C01_link_c_sendInLoop_def : forall c d k,
+  c_sendInLoop c d k =
+  let a := ctl c in
+  if cstate_eqb (st a) Disconnected then Ok (c, [EvGiveUp]) else            (* :145-149 *)
+  let oldLen := B.readableBytes (obuf c) in                                  (* :151 and :179 *)
+  let direct := negb (writing a) && (oldLen =? 0) in                         (* :151 *)
+  let '(nwrote, fatal, wrote_ok) :=
+    if direct then
+      match effective a k with                                               (* :153 write(fd, data, len) *)
+      | Err e => (0, is_fatal e, false)
+      | k' => (match taken k' (length d) with Some n => n | None => 0 end, false, true)
+      end
+    else (0, false, false) in
+  let remaining := length d - nwrote in                                      (* :156 *)
+  let p1 := if wrote_ok && (remaining =? 0) && has_wc a
+            then pending a ++ [FWriteComplete] else pending a in             (* :157-160 *)
+  let queue := negb fatal && (0 <? remaining) in                             (* :177 *)
+  let p2 := if queue && (hwm a <=? N.of_nat (oldLen + remaining))%N && (N.of_nat oldLen <? hwm a)%N && has_hwm a
+            then p1 ++ [FHighWater (oldLen + remaining)] else p1 in          (* :180-185 *)
+  match (if queue then B.append (skipn nwrote d) (obuf c) else B.Ok (obuf c)) with   (* :186 *)
+  | B.Ok ob' =>
+      Ok (mkCC (mkConn (st a) [] [] (if queue then true else writing a)      (* :187-190 *)
+                       (rd_chan a) (rd_flag a) (registered a) (hwm a) (has_wc a) (has_hwm a)
+                       (wire a ++ firstn nwrote d) (fin a) p2 (chk a) (delayed a)
+                       (if fatal then accepted a else accepted a ++ d)
+                       (consumed a) (delivered a) (enq a) (ran a) (ups a) (downs a))
+               ob' (ibuf c),
+          if direct then match effective a k with Err EAGAIN => [] | Err _ => [EvErrorLogged] | _ => [] end else [])
+  | _ => Fault
+  end.
+Proof. exact c_sendInLoop_unfold. Qed.
+Print Assumptions C01_link_c_sendInLoop_def.
+
+Theorem C01_link_c_handleWrite_def : forall c k,
+  c_handleWrite c k =
+  let a := ctl c in
+  if writing a then                                                          (* :371 *)
+    match B.toStringPiece (obuf c) with                                      (* :374-375 peek(), readableBytes() *)
+    | B.Ok data =>
+        match taken (effective a k) (length data) with                       (* :373 write() *)
+        | Some n' =>
+            if 0 <? n' then                                                  (* :376 *)
+              match B.retrieve n' (obuf c) with                              (* :378 *)
+              | B.Ok ob' =>
+                  let empty := B.readableBytes ob' =? 0 in                   (* :379 *)
+                  let a1 := mkConn (st a) [] [] (if empty then false else true)      (* :381 *)
+                                   (rd_chan a) (rd_flag a) (registered a) (hwm a) (has_wc a) (has_hwm a)
+                                   (wire a ++ firstn n' data) (fin a)
+                                   (if empty && has_wc a then pending a ++ [FWriteComplete] else pending a)  (* :382-385 *)
+                                   (chk a) (delayed a) (accepted a) (consumed a) (delivered a) (enq a) (ran a)
+                                   (ups a) (downs a) in
+                  let '(a2, evs) := if empty && cstate_eqb (st a) Disconnecting     (* :386-389 *)
+                                    then shutdownInLoop a1 else (a1, []) in
+                  Ok (mkCC a2 ob' (ibuf c), evs)
+              | _ => Fault
+              end
+            else Ok (c, [EvErrorLogged])                                     (* :392-399 *)
+        | None => Ok (c, [EvErrorLogged])
+        end
+    | _ => Fault
+    end
+  else Ok (c, []).                                                           (* :401-405 *)
+
+(* TcpConnection::handleRead, TcpConnection.cc:347-366; [k] is the kernel's answer to the readv
+   of Buffer::readFd (Buffer.cc:25-58): KData avail = the descriptor has [avail] ready,
+   KErr e = -1 with errno e *)
+Definition c_handleRead (c : cconn) (k : B.kres) : res (cconn * list event) :=
+  let a := ctl c in
+  match B.readFd k (ibuf c) with                                             (* :351 *)
+  | B.Ok (ib', r) =>
+      if (0 <? B.rf_n r)%Z then                                              (* :352 n > 0 *)
+        Ok (mkCC (mkConn (st a) [] [] (writing a) (rd_chan a) (rd_flag a) (registered a) (hwm a)
+                         (has_wc a) (has_hwm a) (wire a) (fin a) (pending a) (chk a) (delayed a) (accepted a)
+                         (consumed a)
+                         (delivered a ++ B.delivered (B.readFd_capacity (ibuf c)) k)   (* ghost *)
+                         (enq a) (ran a) (ups a) (downs a))
+                 (obuf c) ib',
+            [EvMsg (B.readableBytes ib')])                                   (* :354 *)
+      else if (B.rf_n r =? 0)%Z then                                         (* :356 n == 0 *)
+        match handleCloseChecked a with                                      (* :358 *)
+        | Ok (a', e) => Ok (mkCC a' (obuf c) ib', e)
+        | Rejected => Rejected
+        | Fault => Fault
+        end
+      else Ok (mkCC a (obuf c) ib', [EvErrorLogged])                         (* :360-365 *)
+  | _ => Fault
+  end.
+Proof. exact c_handleWrite_unfold. Qed.
+Print Assumptions C01_link_c_handleWrite_def.
+
+Theorem C01_link_c_handleRead_def : forall c k,
+  c_handleRead c k =
+  let a := ctl c in
+  match B.readFd k (ibuf c) with                                             (* :351 *)
+  | B.Ok (ib', r) =>
+      if (0 <? B.rf_n r)%Z then                                              (* :352 n > 0 *)
+        Ok (mkCC (mkConn (st a) [] [] (writing a) (rd_chan a) (rd_flag a) (registered a) (hwm a)
+                         (has_wc a) (has_hwm a) (wire a) (fin a) (pending a) (chk a) (delayed a) (accepted a)
+                         (consumed a)
+                         (delivered a ++ B.delivered (B.readFd_capacity (ibuf c)) k)   (* ghost *)
+                         (enq a) (ran a) (ups a) (downs a))
+                 (obuf c) ib',
+            [EvMsg (B.readableBytes ib')])                                   (* :354 *)
+      else if (B.rf_n r =? 0)%Z then                                         (* :356 n == 0 *)
+        match handleCloseChecked a with                                      (* :358 *)
+        | Ok (a', e) => Ok (mkCC a' (obuf c) ib', e)
+        | Rejected => Rejected
+        | Fault => Fault
+        end
+      else Ok (mkCC a (obuf c) ib', [EvErrorLogged])                         (* :360-365 *)
+  | _ => Fault
+  end.
+Proof. exact c_handleRead_unfold. Qed.
+Print Assumptions C01_link_c_handleRead_def.
+
+Theorem C01_link_lift_def : forall c r,
+  lift c r =
+  match r with
+  | Ok (a', e) => Ok (mkCC a' (obuf c) (ibuf c), e)
+  | Rejected => Rejected
+  | Fault => Fault
+  end.
+Proof. exact lift_unfold. Qed.
+Print Assumptions C01_link_lift_def.
+
+Theorem C01_link_c_add_ran_def : forall a t d,
+  c_add_ran a t d =
+  mkConn (st a) (outb a) (inb a) (writing a) (rd_chan a) (rd_flag a) (registered a) (hwm a)
+         (has_wc a) (has_hwm a) (wire a) (fin a) (pending a) (chk a) (delayed a)
+         (accepted a) (consumed a) (delivered a) (enq a) (ran a ++ [(t, d)]) (ups a) (downs a).
+Proof. exact c_add_ran_unfold. Qed.
+Print Assumptions C01_link_c_add_ran_def.
+
+Theorem C01_link_c_run_def : forall c ops,
+  c_run c ops = match ops with
+                | [] => Ok (c, [])
+                | o :: rest =>
+                    match c_step c o with
+                    | Ok (c1, e1) => match c_run c1 rest with
+                                     | Ok (c2, e2) => Ok (c2, e1 ++ e2)
+                                     | Rejected => Rejected
+                                     | Fault => Fault
+                                     end
+                    | Rejected => Rejected
+                    | Fault => Fault
+                    end
+                end.
+Proof. exact c_run_unfold. Qed.
+Print Assumptions C01_link_c_run_def.
+
+(* the abstraction: forget vector and indices, keep the readable bytes; the Conn_Model op a
+   concrete op amounts to; well-formed concrete ops; reachable Buffer states *)
+Theorem C01_link_abs_def : forall c,
+  abs c = mkConn (st (ctl c)) (B.readable (obuf c)) (B.readable (ibuf c)) (writing (ctl c)) (rd_chan (ctl c))
+                 (rd_flag (ctl c)) (registered (ctl c)) (hwm (ctl c)) (has_wc (ctl c)) (has_hwm (ctl c))
+                 (wire (ctl c)) (fin (ctl c)) (pending (ctl c)) (chk (ctl c)) (delayed (ctl c))
+                 (accepted (ctl c)) (consumed (ctl c)) (delivered (ctl c)) (enq (ctl c)) (ran (ctl c))
+                 (ups (ctl c)) (downs (ctl c)).
+Proof. exact abs_unfold. Qed.
+Print Assumptions C01_link_abs_def.
+
+Theorem C01_link_abs_op_def : forall c o,
+  abs_op c o = match o with
+               | COp o => o
+               | CRead (B.KData avail) =>
+                   if 0 <? length (firstn (B.readFd_capacity (ibuf c)) avail)
+                   then EvReadData (firstn (B.readFd_capacity (ibuf c)) avail) else EvReadEOF
+               | CRead (B.KErr _) => EvReadErr
+               | CRetrieveAll => Retrieve (B.readableBytes (ibuf c))
+               end.
+Proof. exact abs_op_unfold. Qed.
+Print Assumptions C01_link_abs_op_def.
+
+Theorem C01_link_abs_ops_def : forall c ops,
+  abs_ops c ops = match ops with
+                  | [] => []
+                  | o :: rest => abs_op c o :: match c_step c o with Ok (c', _) => abs_ops c' rest | _ => [] end
+                  end.
+Proof. exact abs_ops_unfold. Qed.
+Print Assumptions C01_link_abs_ops_def.
+
+Theorem C01_link_wf_bufs_ok_def : forall c o,
+  (bufs_ok c <-> exists lo li, BP.reach (obuf c, ibuf c) (lo, li)) /\
+  cop_wf o = match o with COp (EvReadData _) | COp EvReadEOF | COp EvReadErr => false | _ => true end.
+Proof. exact (fun c o => conj (bufs_ok_unfold c) (cop_wf_unfold o)). Qed.
+Print Assumptions C01_link_wf_bufs_ok_def.
+
+Theorem C01_link_fits_conc_op_def : forall c o,
+  fits c o = (match o with EvReadData d => length d <=? B.readFd_capacity (ibuf c) | _ => true end) /\
+  conc_op o = (match o with
+               | EvReadData d => CRead (B.KData d)
+               | EvReadEOF => CRead (B.KData [])
+               | EvReadErr => CRead (B.KErr 0%Z)
+               | o => COp o
+               end).
+Proof. exact fits_conc_op_unfold. Qed.
+Print Assumptions C01_link_fits_conc_op_def.
+
+Theorem C01_link_c_reach_def : forall c, c_reach c <->
+  (exists mark wc hw, c = c_init mark wc hw) \/
+  (exists c0 o e, c_reach c0 /\ cop_wf o = true /\ c_step c0 o = Ok (c, e)).
+Proof. exact c_reach_unfold. Qed.
+Print Assumptions C01_link_c_reach_def.
+
+(* the simulation relation: the two list fields of the Conn_Model state are the readable bytes of
+   the two buffers, which are reachable Buffer states (C10's reach), all other fields coincide *)
+Theorem C01_link_relation_def : forall a c, R a c <->
+  (B.readable (obuf c) = outb a /\ B.readable (ibuf c) = inb a /\
+   BP.reach (obuf c, ibuf c) (outb a, inb a) /\
+   st a = st (ctl c) /\ writing a = writing (ctl c) /\ rd_chan a = rd_chan (ctl c) /\
+   rd_flag a = rd_flag (ctl c) /\ registered a = registered (ctl c) /\ hwm a = hwm (ctl c) /\
+   has_wc a = has_wc (ctl c) /\ has_hwm a = has_hwm (ctl c) /\ wire a = wire (ctl c) /\
+   fin a = fin (ctl c) /\ pending a = pending (ctl c) /\ chk a = chk (ctl c) /\
+   delayed a = delayed (ctl c) /\ accepted a = accepted (ctl c) /\ consumed a = consumed (ctl c) /\
+   delivered a = delivered (ctl c) /\ enq a = enq (ctl c) /\ ran a = ran (ctl c) /\
+   ups a = ups (ctl c) /\ downs a = downs (ctl c)).
+Proof. exact L1_relation_def. Qed.
+Print Assumptions C01_link_relation_def.
+
+(* REFINEMENT.  Whatever the connection over the two real Buffers does in one step, Conn_Model
+   does on the abstraction: same result kind, same events, and both buffers stay reachable
+   Buffer states.  So "outb / inb = readable bytes of the Buffers" is a theorem. *)
+Theorem C01_conn_over_real_buffers_refines : forall c o, bufs_ok c -> cop_wf o = true ->
+  match c_step c o with
+  | Ok (c', e) => step (abs c) (abs_op c o) = Ok (abs c', e) /\ bufs_ok c'
+  | Rejected => step (abs c) (abs_op c o) = Rejected
+  | Fault => step (abs c) (abs_op c o) = Fault
+  end.
+Proof. exact L1_conn_refines_over_buffers. Qed.
+Print Assumptions C01_conn_over_real_buffers_refines.
+
+(* SIMULATION.  Every accepted Conn_Model step from a related state is performed over the real
+   Buffers: every Buffer call is accepted by C10's guards (Ok, neither Rejected nor Fault), same
+   events, relation re-established.  [fits]: one handleRead cannot deliver more than readFd offers
+   to readv (Conn_Model's EvReadData d over-approximates the environment there). *)
+Theorem C01_conn_over_real_buffers_simulates : forall a c o a' e, R a c -> fits c o = true ->
+  step a o = Ok (a', e) ->
+  exists c', c_step c (conc_op o) = Ok (c', e) /\ R a' c'.
+Proof. exact L1_conn_simulated_over_buffers. Qed.
+Print Assumptions C01_conn_over_real_buffers_simulates.
+
+(* TcpConnection never violates a precondition of Buffer, no Buffer access of sendInLoop /
+   handleWrite / handleRead is out of bounds, no assert of TcpConnection.cc fires: no history of
+   the connection over real Buffers faults *)
+Theorem C01_no_buffer_precondition_violated : forall mark wc hw ops, forallb cop_wf ops = true ->
+  c_run (c_init mark wc hw) ops <> Fault.
+Proof. exact L1_no_buffer_precondition_violated. Qed.
+Print Assumptions C01_no_buffer_precondition_violated.
+
+(* BOTH HEADLINE THEOREMS OF C01 ON THE REAL BUFFERS.  For every history: what the peer read
+   followed by the readable bytes of outputBuffer_ is the in-order concatenation of the blocks of
+   the history's sendInLoops; what the user retrieved followed by the readable bytes of
+   inputBuffer_ is the concatenation, over the handleReads, of what readFd delivered; one message
+   callback per non-empty delivery. *)
+Theorem C01_streams_hold_on_real_buffers : forall mark wc hw ops c e, forallb cop_wf ops = true ->
+  c_run (c_init mark wc hw) ops = Ok (c, e) ->
+  wire (ctl c) ++ B.readable (obuf c) =
+    flat_map step_block (trace (init mark wc hw) (abs_ops (c_init mark wc hw) ops)) /\
+  consumed (ctl c) ++ B.readable (ibuf c) = c_reads (c_init mark wc hw) ops /\
+  length (filter is_msg e) = c_nreads (c_init mark wc hw) ops.
+Proof. exact c_streams. Qed.
+Print Assumptions C01_streams_hold_on_real_buffers.
+
+Theorem C01_link_c_reads_def : forall c ops,
+  c_reads c ops = (match ops with
+                   | [] => []
+                   | o :: rest =>
+                       (match o with CRead k => B.delivered (B.readFd_capacity (ibuf c)) k | _ => [] end)
+                       ++ match c_step c o with Ok (c', _) => c_reads c' rest | _ => [] end
+                   end) /\
+  c_nreads c ops = (match ops with
+                    | [] => 0
+                    | o :: rest =>
+                        (if match o with
+                            | CRead k => 0 <? length (B.delivered (B.readFd_capacity (ibuf c)) k)
+                            | _ => false
+                            end then 1 else 0) +
+                        match c_step c o with Ok (c', _) => c_nreads c' rest | _ => 0 end
+                    end).
+Proof. exact c_reads_unfold. Qed.
+Print Assumptions C01_link_c_reads_def.
+
+(* one handleRead = readFd's extrabuf path: exactly min(available, capacity) bytes are appended
+   to inputBuffer_, capacity = writable + sizeof extrabuf (65536) when writable < sizeof extrabuf,
+   = writable otherwise; outputBuffer_ untouched; the callback sees the whole buffered input *)
+Theorem C01_handleRead_delivers : forall c avail, bufs_ok c ->
+  rd_chan (ctl c) && registered (ctl c) = true ->
+  let cap := B.readFd_capacity (ibuf c) in
+  let n := Nat.min (length avail) cap in
+  cap = (if B.writableBytes (ibuf c) <? B.kExtraBuf
+         then B.writableBytes (ibuf c) + B.kExtraBuf else B.writableBytes (ibuf c)) /\
+  (0 < n ->
+   exists c', c_step c (CRead (B.KData avail)) = Ok (c', [EvMsg (length (B.readable (ibuf c)) + n)]) /\
+              B.readable (ibuf c') = B.readable (ibuf c) ++ firstn n avail /\
+              B.readable (obuf c') = B.readable (obuf c) /\
+              delivered (ctl c') = delivered (ctl c) ++ firstn n avail).
+Proof. exact L1_handleRead_delivers. Qed.
+Print Assumptions C01_handleRead_delivers.
+
+(* C01_write_interest_iff_backlog on the real buffer *)
+Theorem C01_write_interest_iff_buffer_nonempty : forall c, c_reach c ->
+  st (ctl c) = Connected \/ st (ctl c) = Disconnecting ->
+  (writing (ctl c) = true <-> B.readableBytes (obuf c) <> 0).
+Proof. exact L1_write_interest_iff_buffer_nonempty. Qed.
+Print Assumptions C01_write_interest_iff_buffer_nonempty.
+
+(* THE TRANSFER PRINCIPLE: every theorem of this file about reachable Conn_Model states holds of
+   the abstraction of every reachable state over real Buffers, and those buffers are reachable
+   Buffer states, so every C10 theorem holds of them *)
+Theorem C01_transfer_to_real_buffers : forall P : conn -> Prop,
+  (forall a, reach a -> P a) ->
+  forall c, c_reach c -> P (abs c) /\ exists lo li, BP.reach (obuf c, ibuf c) (lo, li).
+Proof. exact (fun P HP c Hr => conj (L1_transfer P HP c Hr) (L1_reachable_buffers c Hr)). Qed.
+Print Assumptions C01_transfer_to_real_buffers.
+
+(* non-vacuity: a 14-op history over real Buffers (partial direct write, foreign send through the
+   queue, drain by handleWrite, reads, both retrieve forms, EAGAIN on read, shutdown, EOF), and
+   the extrabuf path: a fresh 1024-byte input buffer and 70000 ready bytes -> 66560 delivered *)
+Example C01_link_ex_run :
+  exists c e, c_run (c_init 100 true true) l1_ops = Ok (c, e) /\ forallb cop_wf l1_ops = true /\
+              length (wire (ctl c)) = 5 /\ length (consumed (ctl c)) = 5 /\ st (ctl c) = Disconnected.
+Proof. exact l1_ex_run_ok. Qed.
+Example C01_link_ex_spill :
+  match c_run (c_init 100 false false)
+              [COp Establish; CRead (B.KData (repeat l1_a (Z.to_nat 70000)))] with
+  | Ok (c, e) => (B.readableBytes (ibuf c) =? Z.to_nat 66560) && (length e =? 2)
+  | _ => false
+  end = true.
+Proof. exact l1_ex_spill. Qed.
